@@ -17,6 +17,7 @@ import os
 from fractions import Fraction
 
 from .. import translate
+from . import normalize
 from ..translate import Untranslatable
 
 BOOT = "fairlearn/metrics/_bootstrap.py"
@@ -27,7 +28,7 @@ METHODS = ("linear", "lower", "higher", "nearest", "midpoint")
 def _parse(repo, rel):
     try:
         with open(os.path.join(repo, rel)) as f:
-            return ast.parse(f.read())
+            return normalize.parse(f.read())
     except (OSError, SyntaxError) as e:
         raise Untranslatable(f"{rel}: {e}")
 
